@@ -41,6 +41,24 @@ SHARED_FUNCS = {
 }
 SHARED_FIELDS = {"_next", "_queue", "_state", "_value", "_exception", "_ptr_value", "_ptr", "_capacity", "_handle_addr", "_resume_fn", "_pool"}
 SHARED_CALLS = {"resume", "fn", "set", "resolve", "destroy", "subscribe", "build_queue", "set_ref"}
+# signal<T> (signal.h; position facts SignalClock.lean assumes, obligations `c03_signal_*` of Props/C03b.lean).  Designated PER CLASS, so
+# that the extra field / call names create no row in a function of any other class:
+#   functions: the listed ones, plus EVERY member function of EVERY class local to `signal::connect` (the callback awaiter: its class
+#              and member names are private names nobody promised to keep - the obligations speak of "the classes local to connect");
+#   fields:    SHARED_FIELDS, the two value locations, and every member of the object itself (base = this), whatever its name
+#              ("nothing of the awaiter is touched after subscribe" must not depend on how its members are called);
+#   calls:     SHARED_CALLS and the ones below.
+SIGNAL_FUNCS = {
+    ("signal::collector", "operator()"), ("signal::state", "~state"), ("signal::state", "notify_awaiters"),
+    ("signal::emitter", "await_suspend"), ("signal::emitter", "await_resume"),
+}
+SIGNAL_LOCAL_CLASSES_OF = ("signal::connect::",)
+SIGNAL_FIELDS = {"_cur_val", "_value_storage"}
+SIGNAL_CALLS = {"notify_awaiters", "set_handle", "set_resume_fn", "lock", "resume_chain"}
+
+
+def signal_designated(f):
+    return (f.cls, f.fn) in SIGNAL_FUNCS or any(f.cls.startswith(p) for p in SIGNAL_LOCAL_CLASSES_OF)
 
 
 def lstr(s):
@@ -88,6 +106,32 @@ def alloc_owners(w, f):
         f = callers[0]
         seen.add(id(f))
     return [f]
+
+
+def is_exc_site(what):
+    return what == "rethrow" or what.startswith("throw:") or what.startswith("catch")
+
+
+def exc_owners(w, f):
+    """the functions a `throw` / `rethrow_exception` / `catch` found in `f` is charged to: a private / protected member function is
+    a named block of EVERY function that calls it (calls matched by name, transitively) - whoever calls the helper is a function that
+    can throw what the helper throws; so extracting the `if (done) throw ...` of three entry points into one private helper, or
+    inlining it back, leaves the table unchanged (benign/r2-e4).  Public functions, free functions, constructors / destructors and
+    helpers nobody calls answer for themselves."""
+    out, seen, todo = [], set(), [f]
+    while todo:
+        g = todo.pop()
+        if id(g) in seen:
+            continue
+        seen.add(id(g))
+        callers = []
+        if getattr(g, "access", "public") != "public" and g.cls and not g.ctor_dtor:
+            callers = [h for h in w.fns if h is not g and any(cn == g.fn for cn, _lk, _s in h.calls)]
+        if callers:
+            todo.extend(callers)
+        else:
+            out.append(g)
+    return out
 
 
 def regenerate():
@@ -197,7 +241,7 @@ def regenerate():
             for a in f.allocs:
                 if a == "placement-new":
                     continue
-                for g in alloc_owners(w, f):
+                for g in (exc_owners(w, f) if is_exc_site(a) else alloc_owners(w, f)):
                     rows.append((g.file, g.cls, g.fn, a))
     for cls, mem in w.members.items():
         for name, typ, file in mem:
@@ -221,14 +265,17 @@ def regenerate():
     # ---- plain accesses / call order in designated functions ---------------------------------------
     rows = []
     for f in w.fns:
-        if (f.cls, f.fn) not in SHARED_FUNCS:
+        sig = signal_designated(f)
+        if (f.cls, f.fn) not in SHARED_FUNCS and not sig:
             continue
+        fields = SHARED_FIELDS | SIGNAL_FIELDS if sig else SHARED_FIELDS
+        calls = SHARED_CALLS | SIGNAL_CALLS if sig else SHARED_CALLS
         ev = []
         for a in f.plain:
-            if a["field"] in SHARED_FIELDS or a["field"].startswith("*"):
+            if a["field"] in fields or a["field"].startswith("*") or (sig and a["base"] in ("", "this")):
                 ev.append((a["seq"], "" if a["base"] in ("", "this") else a["base"], a["field"], a["write"], max(a["afterOp"], 0), a["inAssert"]))
         for (cn, _lk, seq) in f.calls:
-            if cn in SHARED_CALLS:
+            if cn in calls:
                 ev.append((seq, "", "call:" + cn, False, 0, False))
         ev.sort()
         for k, (seq, base, fld, wr, nops, ina) in enumerate(ev):
